@@ -42,6 +42,8 @@ type Task struct {
 	Arch   string     `json:"arch,omitempty"`
 	Repeat int        `json:"repeat,omitempty"`
 	Read   ReadPlan   `json:"read"`
+	// WriteFail: the n-th Write call of the sink fails (Encode only; 0 = never)
+	WriteFail int `json:"write_fail,omitempty"`
 }
 
 type Expect struct {
@@ -64,6 +66,17 @@ type Scenario struct {
 	SchedPol string            `json:"task_schedule_tail,omitempty"` // rr | lowest
 	Params   map[string]string `json:"params,omitempty"`             // oracle parameters (explicit, no hidden state)
 	Expect   *Expect           `json:"expect,omitempty"`
+	// Prefix: the violation showed only after the scenarios a worker process had
+	// executed before this one (state left behind in the process). Replay then
+	// re-executes exactly that share first: indices i < Upto with i % NW == W.
+	Prefix *PrefixSpec `json:"after_scenarios,omitempty"`
+}
+
+type PrefixSpec struct {
+	Tier string `json:"tier"`
+	W    int    `json:"w"`
+	NW   int    `json:"nw"`
+	Upto int    `json:"upto"`
 }
 
 var repoRoot = func() string {
